@@ -352,6 +352,25 @@ pub fn read_from_gui() -> String {
     buffer
 }
 
+#[cfg(walleye_verif)]
+pub fn verif_play_out_position(
+    commands: &[&str],
+    zobrist_hasher: &ZobristHasher,
+    draw_table: &mut DrawTable,
+) -> BoardState {
+    play_out_position(commands, zobrist_hasher, draw_table)
+}
+
+#[cfg(walleye_verif)]
+pub fn verif_make_move(board: &mut BoardState, player_move: &str, zobrist_hasher: &ZobristHasher) {
+    make_move(board, player_move, zobrist_hasher)
+}
+
+#[cfg(walleye_verif)]
+pub fn verif_parse_go_command(commands: &[&str]) -> GameTime {
+    parse_go_command(commands)
+}
+
 #[cfg(test)]
 mod tests {
     use super::*;
